@@ -14,6 +14,7 @@ import (
 	"fmt"
 	"go/token"
 	"go/types"
+	"golang.org/x/tools/go/ssa"
 	"runtime/debug"
 	"sort"
 )
@@ -541,6 +542,44 @@ func init() {
 			m.vals = append(m.vals[:i:i], m.vals[i+1:]...)
 		}
 		return nil
+	}
+	// ---- sync.Pool: a LIFO free list per receiver (what one goroutine sees
+	// from the real pool between collections); Get on an empty pool calls New
+	externals["(*sync.Pool).Put"] = func(fr *frame, args []value) value {
+		p := args[0].(*value)
+		if fr.i.syncPools == nil {
+			fr.i.syncPools = map[*value][]value{}
+		}
+		if it, ok := args[1].(iface); ok && it.t == nil {
+			return nil // Put(nil) is ignored
+		}
+		fr.i.syncPools[p] = append(fr.i.syncPools[p], args[1])
+		return nil
+	}
+	externals["(*sync.Pool).Get"] = func(fr *frame, args []value) value {
+		p := args[0].(*value)
+		if l := fr.i.syncPools[p]; len(l) > 0 {
+			v := l[len(l)-1]
+			fr.i.syncPools[p] = l[:len(l)-1]
+			return v
+		}
+		// the New field of the Pool struct
+		st := (*p).(structure)
+		pt := fr.i.prog.ImportedPackage("sync").Type("Pool").Type().Underlying().(*types.Struct)
+		for i := 0; i < pt.NumFields(); i++ {
+			if pt.Field(i).Name() == "New" {
+				if fn := st[i]; fn != nil {
+					if c, ok := fn.(*closure); ok && c == nil {
+						break
+					}
+					if f, ok := fn.(*ssa.Function); ok && f == nil {
+						break
+					}
+					return call(fr.i, fr, 0, fn, nil)
+				}
+			}
+		}
+		return iface{}
 	}
 	externals["(*sync.WaitGroup).Add"] = func(fr *frame, args []value) value {
 		s := fr.i.sched
